@@ -113,6 +113,74 @@ Theorem streams_answered_exactly_once :
                                  ((c, hs), open_streams reqs) now dt sched).
 Proof. exact streams_exactly_once. Qed.
 
+(** ---- request bodies: a HISTORY of requests on one connection of either protocol ---- *)
+(** [send] never panics on what [sanitize_request] hands it (the range part of [sanitize_data] computed from the
+    request's Range header, an unsafe path = [Err 400]) for every response whose body length fits a u64 — so neither
+    the HTTP/1 connection task nor an HTTP/2 request task dies in it. *)
+Theorem send_never_panics : forall checked error_page pkg p secure alt m path_ok hdr r,
+  N.of_nat (length (rs_body r)) <= u64_max ->
+  send checked error_page pkg p secure alt m (sd_of path_ok hdr) r <> Panic.
+Proof. exact send_no_panic. Qed.
+
+(** For every host configuration, cache / handler state, clock and EVERY history of requests on one connection —
+    each with a request body of any length (declared where the method has a request body), read by its handler
+    completely, partly ([read_to_bytes(l)]) or not at all (no handler run: refused Range, 404, 405, cache hit), the
+    bytes segmented arbitrarily ([b_early]) —: on the repaired HTTP/1 connection as on the HTTP/2 connection every
+    request is answered, by the application in the state its predecessors left ([answers]: no connection state
+    takes part), and the two sequences of answers are equal up to [normalise]. *)
+Theorem history_parity :
+  forall hstate compute cache_on ims_on parse_ims sanitize_ok prime negotiate vary_tuple vary_header
+         checked error_page pkg alt sanitize encode hversion wants,
+    pkg_oblivious pkg ->
+    forall secure1 st now dt bs,
+      Forall (fun b => pr_no_request_body (rq_method (b_req b)) = true -> b_len b = 0) bs ->
+      Forall (fun w => w <> Panic)
+             (answers hstate compute cache_on ims_on parse_ims sanitize_ok prime negotiate vary_tuple vary_header
+                      checked error_page pkg alt sanitize encode hversion H2 true st now dt bs) ->
+      conn_hist hstate compute cache_on ims_on parse_ims sanitize_ok prime negotiate vary_tuple vary_header
+                checked error_page pkg alt sanitize encode hversion wants H1 true secure1 st now dt bs
+        = map Some (answers hstate compute cache_on ims_on parse_ims sanitize_ok prime negotiate vary_tuple vary_header
+                            checked error_page pkg alt sanitize encode hversion H1 secure1 st now dt bs) /\
+      conn_hist hstate compute cache_on ims_on parse_ims sanitize_ok prime negotiate vary_tuple vary_header
+                checked error_page pkg alt sanitize encode hversion wants H2 true true st now dt bs
+        = map Some (answers hstate compute cache_on ims_on parse_ims sanitize_ok prime negotiate vary_tuple vary_header
+                            checked error_page pkg alt sanitize encode hversion H2 true st now dt bs) /\
+      map onorm (answers hstate compute cache_on ims_on parse_ims sanitize_ok prime negotiate vary_tuple vary_header
+                         checked error_page pkg alt sanitize encode hversion H1 secure1 st now dt bs)
+        = map onorm (answers hstate compute cache_on ims_on parse_ims sanitize_ok prime negotiate vary_tuple vary_header
+                             checked error_page pkg alt sanitize encode hversion H2 true st now dt bs).
+Proof. exact history_parity_lemma. Qed.
+
+(** The executable history model of the correspondence (components proto.pair / proto.answered) meets its specification
+    component on EVERY input of the domain: all requests are answered with a response on both connections, equal up to
+    [normalise]. *)
+Theorem pair_history_answered : forall checked ops alt e416,
+  Forall (fun o => hop (pkg_op_name o) = false) ops ->
+  forall secure1 exs,
+    Forall (fun e => (pr_no_request_body (ex_method e) = true -> ex_blen e = 0) /\
+                     N.of_nat (length (rs_body (ex_l4 e))) <= u64_max) exs ->
+    forallb is_resp (pair_hist checked ops alt e416 H1 true secure1 exs) = true /\
+    forallb is_resp (pair_hist checked ops alt e416 H2 true true exs) = true /\
+    map (option_map onorm) (pair_hist checked ops alt e416 H1 true secure1 exs)
+      = map (option_map onorm) (pair_hist checked ops alt e416 H2 true true exs).
+Proof. exact pair_hist_answered. Qed.
+
+(** The code before the repair dfe4d54 ([drain = false]): false.  PUT with a refused Range and 700 unread body bytes,
+    then GET: HTTP/1.1 never answers the GET, HTTP/2 does (replayed on the real code before the repair: known-findings.txt). *)
+Theorem unread_request_body_v0_refuted : exists checked ops alt e416 exs,
+  Forall (fun e => pr_no_request_body (ex_method e) = true -> ex_blen e = 0) exs /\
+  forallb is_resp (pair_hist checked ops alt e416 H1 false true exs) = false /\
+  forallb is_resp (pair_hist checked ops alt e416 H2 false true exs) = true /\
+  forallb is_resp (pair_hist checked ops alt e416 H1 true true exs) = true.
+Proof. exact unread_body_v0_refuted_lemma. Qed.
+
+(** The domain hypothesis of [history_parity] / [pair_history_answered] cannot be dropped: a GET that carries body
+    bytes arriving after its head is answered, but the next request on that HTTP/1 connection is not. *)
+Theorem undeclared_request_body_refuted : exists checked ops alt e416 exs,
+  forallb is_resp (pair_hist checked ops alt e416 H1 true true exs) = false /\
+  forallb is_resp (pair_hist checked ops alt e416 H2 true true exs) = true.
+Proof. exact undeclared_body_refuted_lemma. Qed.
+
 (** ---- non-vacuity ---- *)
 (** a Package chain like [Extensions::new()]'s (referrer-policy unless present, server always) is oblivious *)
 Example menu_meets_contract :
@@ -180,3 +248,27 @@ Example streams_instance :
                    (([], 0), open_streams [(1, rq (B "/a")); (2, rq (B "/b")); (3, rq (B "/a"))]) 0 1 [1; 2; 3; 3; 1; 2])
   = [(3, B "/a"); (1, B "/a"); (2, B "/b")].
 Proof. vm_compute. reflexivity. Qed.
+
+(** a history with request bodies nobody reads: PUT /a with 700 bytes (100 of them arriving with the head), GET /b,
+    POST /a with 5000 bytes.  It meets the hypotheses of [history_parity]; the repaired HTTP/1 connection answers all
+    three, the connection before the repair only the first. *)
+Definition ex_hist (drain : bool) (p : proto) (bs : list breq) : list (option (outcome wreply)) :=
+  conn_hist N ex_compute true true (fun _ => None) (fun _ => true) (fun r => r) (fun _ _ => None) (fun _ => [])
+            (fun _ _ => []) false (fun _ => ex_resp) ex_pkg None (fun _ => Ok None) (fun _ _ h b => (h, b)) V11
+            (fun _ _ => None) p drain true ([], 0) 0 1 bs.
+Example history_instance :
+  let rq m p := mkReq m p None [] 0 in
+  let bs := [mkBreq (rq M_OTHER (B "/a")) 700 100; mkBreq (rq M_GET (B "/b")) 0 0; mkBreq (rq M_POST (B "/a")) 5000 0] in
+  Forall (fun b => pr_no_request_body (rq_method (b_req b)) = true -> b_len b = 0) bs /\
+  Forall (fun w => w <> Panic)
+         (answers N ex_compute true true (fun _ => None) (fun _ => true) (fun r => r) (fun _ _ => None) (fun _ => [])
+                  (fun _ _ => []) false (fun _ => ex_resp) ex_pkg None (fun _ => Ok None) (fun _ _ h b => (h, b)) V11
+                  H2 true ([], 0) 0 1 bs) /\
+  map is_resp (ex_hist true H1 bs) = [true; true; true] /\
+  map is_resp (ex_hist true H2 bs) = [true; true; true] /\
+  map is_resp (ex_hist false H1 bs) = [true; false; false].
+Proof.
+  cbv zeta. split; [|split; [|vm_compute; repeat split]].
+  - repeat constructor; cbn; intros H; try reflexivity; discriminate H.
+  - vm_compute. repeat constructor; discriminate.
+Qed.
